@@ -38,11 +38,16 @@ fn write_dlt(path: &Path, n: u32, start_index: u32) {
 
 /// the same messages as `write_dlt`, produced by patching the bytes of one serialised message (seconds of the
 /// storage header, message counter): fast enough for a million messages; checked against `to_write` on samples
-fn write_dlt_fast(path: &Path, n: u32) {
+fn write_dlt_fast(path: &Path, n: u32, spacing_us: u64) {
     use adlt::dlt;
     let ecu = dlt::DltChar4::from_buf(b"ECUR");
+    let time = |i: u32| -> (u32, u32) {
+        let t = i as u64 * spacing_us;
+        (1_640_995_200 + (t / 1_000_000) as u32, (t % 1_000_000) as u32)
+    };
     let ser = |i: u32| -> Vec<u8> {
-        let sh = dlt::DltStorageHeader { secs: i + 1_640_995_200, micros: 0, ecu };
+        let (secs, micros) = time(i);
+        let sh = dlt::DltStorageHeader { secs, micros, ecu };
         let standard_header = dlt::DltStandardHeader { htyp: 1 << 5, mcnt: (i % 256) as u8, len: 4 };
         let m = dlt::DltMessage::from_headers(i, sh, standard_header, &[], vec![]);
         let mut v = vec![];
@@ -52,11 +57,13 @@ fn write_dlt_fast(path: &Path, n: u32) {
     let tmpl = ser(0);
     let patch = |i: u32| -> Vec<u8> {
         let mut v = tmpl.clone();
-        v[4..8].copy_from_slice(&(i + 1_640_995_200).to_le_bytes());
+        let (secs, micros) = time(i);
+        v[4..8].copy_from_slice(&secs.to_le_bytes());
+        v[8..12].copy_from_slice(&micros.to_le_bytes());
         v[17] = (i % 256) as u8;
         v
     };
-    for i in [0u32, 1, 255, 256, 70_000, 999_999] {
+    for i in [0u32, 1, 255, 256, 70_000, 999_999, 2_199_999] {
         assert_eq!(patch(i), ser(i), "message layout changed");
     }
     let mut f = std::io::BufWriter::with_capacity(1 << 20, std::fs::File::create(path).unwrap());
@@ -70,6 +77,9 @@ fn write_dlt_fast(path: &Path, n: u32) {
 /// (sync_channel(1024*1024) + sync_channel(512*1024) [+ 512*1024 with sort]): with a paused connection the
 /// pipeline is still full when the parse thread ends, so `close` has to drain until the channel is disconnected
 const HUGE_MSGS: u32 = 1_000_000;
+/// 4 us apart: all inside one window of the sorter (20 s), which therefore holds every message until its input ends;
+/// far more than the final channel (512k) takes
+const DENSE_MSGS: u32 = 2_200_000;
 
 struct Files {
     dir: PathBuf,
@@ -79,7 +89,8 @@ impl Files {
         write_dlt(&dir.join("a.dlt"), 10, 0);
         write_dlt(&dir.join("b.dlt"), 5, 10);
         write_dlt(&dir.join("big.dlt"), 150_000, 0);
-        write_dlt_fast(&dir.join("huge.dlt"), HUGE_MSGS);
+        write_dlt_fast(&dir.join("huge.dlt"), HUGE_MSGS, 1_000_000);
+        write_dlt_fast(&dir.join("dense.dlt"), DENSE_MSGS, 4);
         std::fs::write(dir.join("empty.dlt"), b"").unwrap();
         std::fs::write(dir.join("bad.zip"), b"this is not a zip").unwrap();
         std::fs::create_dir_all(dir.join("sub")).unwrap();
@@ -90,6 +101,7 @@ impl Files {
         let p = |n: &str| self.dir.join(n).to_str().unwrap().to_string();
         s.replace("@BADZIP", &p("bad.zip"))
             .replace("@HUGE", &p("huge.dlt"))
+            .replace("@DENSE", &p("dense.dlt"))
             .replace("@BIG", &p("big.dlt"))
             .replace("@B", &p("b.dlt"))
             .replace("@A", &p("a.dlt"))
@@ -163,6 +175,7 @@ enum Async {
     Msgs(u32, usize), // binary stream data
     StreamInfo(u32),
     TextMsg(u32), // "stream:<id> msg(..)" text stream data
+    Lifecycles(Vec<(u32, u32)>), // (lifecycle id, nr_msgs)
     Other,
 }
 
@@ -185,6 +198,7 @@ fn classify_binary(d: &[u8]) -> Async {
             }
         }
         Ok((BinType::StreamInfo(si), _)) => Async::StreamInfo(si.stream_id),
+        Ok((BinType::Lifecycles(lcs), _)) => Async::Lifecycles(lcs.iter().map(|l| (l.id, l.nr_msgs)).collect()),
         _ => Async::Other,
     }
 }
@@ -294,6 +308,8 @@ fn cstr(s: &str) -> String {
 #[derive(Clone, Debug)]
 struct Cmd {
     sleep_ms: u64,
+    /// before sending: wait (at most 90 s) until the lifecycle frames announce at least this many messages (0 = do not wait)
+    wait_lc: u32,
     frame: String,
     orc: OrcS,
 }
@@ -895,7 +911,7 @@ fn gen_cmd(rng: &mut Rng, cfg: &GenCfg, tr: &Tracker, files: &Files, pos: usize)
         }
         _ => ((*rng.pick(UNKNOWN)).to_string(), OrcS::None),
     };
-    Cmd { sleep_ms, frame, orc }
+    Cmd { sleep_ms, wait_lc: 0, frame, orc }
 }
 
 // ---------------------------------------------------------------- running one session
@@ -951,7 +967,13 @@ fn run_session(plan: Plan, scratch: &Path, tag: &str) -> SessionResult {
         (_, Some((_, c, _))) => c.len + 1,
         _ => 0,
     };
+    let lc_msgs: std::cell::RefCell<std::collections::HashMap<u32, u32>> = Default::default();
     let handle_async = |a: Async, tr: &mut Tracker, pending: &mut Vec<Ev>| match a {
+        Async::Lifecycles(l) => {
+            for (id, n) in l {
+                lc_msgs.borrow_mut().insert(id, n);
+            }
+        }
         Async::FileInfo(n) => {
             tr.nmsgs = n;
             pending.push(Ev::Msgs(n));
@@ -967,7 +989,7 @@ fn run_session(plan: Plan, scratch: &Path, tag: &str) -> SessionResult {
             (Some(v), _) => v[pos].clone(),
             (_, Some((rng, cfg, files))) => {
                 if pos + 1 == total {
-                    Cmd { sleep_ms: 0, frame: format!("zz_sentinel_{}", tag), orc: OrcS::None }
+                    Cmd { sleep_ms: 0, wait_lc: 0, frame: format!("zz_sentinel_{}", tag), orc: OrcS::None }
                 } else {
                     gen_cmd(rng, cfg, &tr, files, pos)
                 }
@@ -978,6 +1000,23 @@ fn run_session(plan: Plan, scratch: &Path, tag: &str) -> SessionResult {
             res.results.push(CmdResult { pre: vec![], nmsgs: tr.nmsgs, reply: None, reply_ms: 0, dead: dead.clone() });
             res.cmds.push(cmd);
             continue;
+        }
+        // wait for the lifecycle announcement (reading asynchronous frames)
+        if cmd.wait_lc > 0 {
+            let t0 = Instant::now();
+            while dead.is_none() && lc_msgs.borrow().values().map(|x| *x as u64).sum::<u64>() < cmd.wait_lc as u64 {
+                if t0.elapsed() > Duration::from_secs(90) {
+                    res.violations.push(("harness_wait".into(), format!("lifecycle frames announced only {:?} of {} messages within 90 s", lc_msgs.borrow(), cmd.wait_lc)));
+                    break;
+                }
+                match rx_one(&mut ws) {
+                    Rx::Timeout => {}
+                    Rx::Async(a) => handle_async(a, &mut tr, &mut pending),
+                    Rx::Reply(s) => res.extra_replies.push(s),
+                    Rx::Closed(e) => dead = Some(e),
+                }
+            }
+            res.tags.push(format!("waited_lc_ms_{}", t0.elapsed().as_millis() / 1000 * 1000));
         }
         // wait (reading asynchronous frames)
         let until = Instant::now() + Duration::from_millis(cmd.sleep_ms);
@@ -1061,6 +1100,7 @@ fn record(sink: &mut Sink, res: &SessionResult, kind: &str) {
     let mut items = vec![];
     let mut obs_cmds = vec![];
     let mut tags = vec![format!("kind_{}", kind)];
+    tags.extend(res.tags.iter().cloned());
     for (c, r) in res.cmds.iter().zip(res.results.iter()) {
         let pre: Vec<String> = r.pre.iter().map(|e| match e {
             Ev::Msgs(n) => format!("TMsgs {}", n),
@@ -1117,7 +1157,7 @@ fn record(sink: &mut Sink, res: &SessionResult, kind: &str) {
     let n_streams = res.results.iter().filter(|r| r.reply.as_deref().map_or(false, |s| s.starts_with("ok: stream ") || s.starts_with("ok: query "))).count();
     let nontrivial = n_ok_open >= 1 && n_streams >= 1 && res.cmds.len() >= 5;
     let case_json = json!({
-        "cmds": res.cmds.iter().map(|c| json!({"sleep_ms": c.sleep_ms, "frame": c.frame, "orc": c.orc.json()})).collect::<Vec<_>>(),
+        "cmds": res.cmds.iter().map(|c| json!({"sleep_ms": c.sleep_ms, "wait_lc": c.wait_lc, "frame": c.frame, "orc": c.orc.json()})).collect::<Vec<_>>(),
         "note": "frames contain absolute paths of the generated files; on replay the path prefix is rewritten",
         "replies": res.results.iter().map(|r| json!(r.reply)).collect::<Vec<_>>(),
         "reply_ms": res.results.iter().map(|r| json!(r.reply_ms as u64)).collect::<Vec<_>>(),
@@ -1130,7 +1170,7 @@ fn record(sink: &mut Sink, res: &SessionResult, kind: &str) {
 }
 
 fn fixed(cmds: &[(u64, &str, OrcS)], files: &Files) -> Vec<Cmd> {
-    cmds.iter().map(|(s, f, o)| Cmd { sleep_ms: *s, frame: files.subst(f), orc: o.clone() }).collect()
+    cmds.iter().map(|(s, f, o)| Cmd { sleep_ms: *s, wait_lc: 0, frame: files.subst(f), orc: o.clone() }).collect()
 }
 
 fn corpus(files: &Files) -> Vec<(&'static str, Vec<Cmd>)> {
@@ -1229,21 +1269,24 @@ fn corpus(files: &Files) -> Vec<(&'static str, Vec<Cmd>)> {
                 files,
             ),
         ),
-        (
-            "close_full_pipeline_sorted",
-            fixed(
+        // close while the sort stage holds (nearly) the whole file: 2.2 million messages 4 us apart stay in the
+        // sorter until the lifecycle thread has ended; the close is sent as soon as the lifecycle frame announces all
+        // of them, i.e. while the sorter flushes far more than the final channel (512k) takes
+        ("close_sorter_holds_all", {
+            let mut v = fixed(
                 &[
-                    (0, r#"open {"files":["@HUGE"],"sort":true}"#, OrcS::Open(Some((0, true, vec![])))),
+                    (0, r#"open {"files":["@DENSE"],"sort":true,"collect":false}"#, OrcS::Open(Some((2, true, vec![])))),
+                    (0, "close", OrcS::None),
                     (0, "pause", OrcS::None),
-                    (0, r#"stream {"window":[0,3],"binary":true}"#, st(false, 0, 3, 0)),
-                    (4500, "close", OrcS::None),
-                    (0, "stop 1", OrcS::Id(false)),
                     (0, r#"open {"files":["@B"]}"#, open_a.clone()),
                     (100, "close", OrcS::None),
+                    (0, "close", OrcS::None),
                 ],
                 files,
-            ),
-        ),
+            );
+            v[1].wait_lc = DENSE_MSGS;
+            v
+        }),
         // every command before any open; arities
         (
             "nothing_open",
@@ -1368,7 +1411,7 @@ fn one_pass_scenario(rng: &mut Rng, files: &Files, k: u64) -> Vec<Cmd> {
     v.push((200, r#"stream {"window":[0,3],"binary":true}"#.into(), OrcS::Stream(Some((false, 0, 3, 0, 0, 0, 0)))));
     v.push((0, "close".into(), OrcS::None));
     v.push((0, format!("zz_sentinel_p{}", k), OrcS::None));
-    v.into_iter().map(|(s, f, o)| Cmd { sleep_ms: s, frame: files.subst(&f), orc: o }).collect()
+    v.into_iter().map(|(s, f, o)| Cmd { sleep_ms: s, wait_lc: 0, frame: files.subst(&f), orc: o }).collect()
 }
 
 fn main() {
@@ -1391,7 +1434,7 @@ fn main() {
             .as_array()
             .unwrap()
             .iter()
-            .map(|x| Cmd { sleep_ms: x["sleep_ms"].as_u64().unwrap(), frame: rewrite_paths(x["frame"].as_str().unwrap(), &files), orc: OrcS::from_json(&x["orc"]) })
+            .map(|x| Cmd { sleep_ms: x["sleep_ms"].as_u64().unwrap(), wait_lc: x["wait_lc"].as_u64().unwrap_or(0) as u32, frame: rewrite_paths(x["frame"].as_str().unwrap(), &files), orc: OrcS::from_json(&x["orc"]) })
             .collect();
         let res = run_session(Plan::Fixed(cmds), scratch.path(), "replay");
         record(&mut sink, &res, "replay");
@@ -1463,7 +1506,7 @@ fn main() {
 /// a recorded frame contains the scratch directory of the recording run: replace `<anything>/<known file>` by this run's path
 fn rewrite_paths(frame: &str, files: &Files) -> String {
     let mut out = frame.to_string();
-    for name in ["a.dlt", "b.dlt", "big.dlt", "huge.dlt", "empty.dlt", "nofile.dlt", "bad.zip", "sub"] {
+    for name in ["a.dlt", "b.dlt", "big.dlt", "huge.dlt", "dense.dlt", "empty.dlt", "nofile.dlt", "bad.zip", "sub"] {
         // occurrences look like "/tmp/.tmpXXXX/a.dlt"
         let mut res = String::new();
         let mut rest = out.as_str();
